@@ -37,6 +37,9 @@ var c14Conds = []struct{ name, cond string }{
 	{"json-index-range", "J.a[7] == 0"},
 	{"json-index-range-const-left", `"x" == J.a[7]`},
 	{"json-missing-member", "J.zz.n == 0"},
+	// a path that is healthy until an action sets the pointer on it to nil
+	{"pointer-path-healthy-until-nilled", "F.PArr[0].V == 5 && F.I < 3"},
+	{"pointer-field-path-healthy-until-nilled", "F.PArr[0].Q.V == 6 && F.I < 3"},
 	// maps and slices that were never made, a JSON null
 	{"nil-map-read", "F.MK[1] == 0"},
 	{"nil-slice-index", "F.SArr[0] == \"\""},
@@ -74,6 +77,10 @@ var c14Acts = []struct {
 	{"act-compound-fails-slice-element", []string{"F.I = F.I + 1", `F.Arr[0] -= "x"`, "F.I2 = 21"}},
 	{"act-compound-nil-operand-map-entry", []string{"F.I = F.I + 1", `F.M["a"] += F.P.V`, "F.I2 = 22"}},
 	{"act-compound-nil-operand-json-member", []string{"F.I = F.I + 1", `J.n -= F.P.V`, "F.I2 = 23"}},
+	{"act-nils-pointer-then-reads", []string{"F.I = F.I + 1", "F.PArr[0] = F.P", "F.I2 = F.PArr[0].V", "F.I2 = 24"}},
+	{"act-nils-pointer", []string{"F.I = F.I + 1", "F.PArr[0] = F.P"}},
+	{"act-nils-pointer-field-then-reads", []string{"F.I = F.I + 1", "F.PArr[0].Q = F.P", "F.I2 = F.PArr[0].Q.V", "F.I2 = 25"}},
+	{"act-nils-pointer-field", []string{"F.I = F.I + 1", "F.PArr[0].Q = F.P"}},
 	{"act-nil-map-write", []string{"F.I = F.I + 1", "F.MK[1] = 2", "F.I2 = 15"}},
 	{"act-nil-slice-write", []string{"F.I = F.I + 1", `F.SArr[0] = "x"`, "F.I2 = 16"}},
 	{"act-json-null-descent-write", []string{"F.I = F.I + 1", "J.nul.x = 1", "F.I2 = 17"}},
@@ -101,6 +108,7 @@ func c14World(faultAt, kind int) func() *ref.World {
 		f.Arr = []int64{1}
 		f.M = map[string]int64{"a": 1}
 		f.MSV = map[string]facts.Sub{"a": {V: 10, S: "held by value"}}
+		f.PArr = []*facts.Sub{{V: 5, Q: &facts.Sub{V: 6}}}
 		f.H().FaultAt = faultAt
 		f.H().FaultKind = kind
 		w.Objs["F"] = f
